@@ -211,6 +211,18 @@ impl<'m> MCTPSMBusContext<'m> {
         self.uuid.copy_from_slice(uuid)
     }
 
+    /// Verification hook: read the private Vendor ID Set Selector cell.
+    #[cfg(feature = "verif-hooks")]
+    pub fn verif_get_vendor_id_selector(&self) -> u8 {
+        self.vendor_id_selector.get()
+    }
+
+    /// Verification hook: overwrite the private Vendor ID Set Selector cell.
+    #[cfg(feature = "verif-hooks")]
+    pub fn verif_set_vendor_id_selector(&self, selector: u8) {
+        self.vendor_id_selector.set(selector)
+    }
+
     /// Get the SMBus headers from a packet
     ///
     /// `packet`: A buffer of the packet to get the headers from.
